@@ -1,0 +1,16 @@
+//go:build verif
+
+package flows
+
+import "github.com/agglayer/aggkit/aggsender/types"
+
+// VerifSetMaxCertSizeC02 sets cfg.MaxCertSize of a base flow created by NewBaseFlow (the /verif C02 harness
+// chooses a size limit per loop iteration). Returns false when f is not a *baseFlow.
+func VerifSetMaxCertSizeC02(f types.AggsenderFlowBaser, maxCertSize uint) bool {
+	b, ok := f.(*baseFlow)
+	if !ok {
+		return false
+	}
+	b.cfg.MaxCertSize = maxCertSize
+	return true
+}
